@@ -99,7 +99,8 @@ theorem updateK_invX (s : State) (c : CtxId) (cons : Addr) (provs : List Addr) (
       split; · exact h
       split; · exact h
       split; · exact h
-      rename_i hstate _ hfreq _
+      split; · exact h
+      rename_i hstate _ _ hfreq _
       obtain ⟨⟨c1, c2, c3, c4, c5, c6⟩, ht, hf, hr, hst, _⟩ := updThr_ok hu
       have hwf := h.ctxWF c x hx
       refine XInv.setCtx h hx ⟨c1, c2, c3, c4, c5, c6⟩ ?_ ?_
@@ -190,6 +191,7 @@ theorem createCtx_invX (s : State) (id : CtxId) (mod : ModName) (svc : SvcName) 
     | none => exact h
     | some capv =>
       dsimp only
+      split; · exact h
       split; · exact h
       have hvr : validateRequest svc (some capv) provs timeout rep freq total = none := by
         by_cases hm : mod = ""
